@@ -59,6 +59,11 @@ INTERNAL_PY = ["__all__ = []", "DEFAULT = 1", "def ihelper(a, b): ...", "class I
 # a public module whose `__all__` is assembled from a private sibling's: the sibling's names are public as pkg.api.<name> only
 API_PY = ["from pkg import _base", "from pkg._base import *", '__all__ = _base.__all__ + ["g"]', "def g(): ..."]
 BASE_PY = ['__all__ = ["bf", "LIMIT"]', "def bf(a): ...", "LIMIT = 1", "def unlisted(): ..."]
+# the lazy-import layout: names listed in __all__ that start with an underscore (public all the same: __all__ decides), and names imported under
+# `if TYPE_CHECKING:` only (served at runtime by a module-level __getattr__) that __all__ lists too
+LAZY_PY = ["from typing import TYPE_CHECKING", "if TYPE_CHECKING:\n    from pkg._models import Model\n    from pkg._models import Field", '__all__ = ["run", "_hook", "_Registry", "Model", "Field"]',
+           "def run(): ...", "def _hook(a, b): ...", "class _Registry:\n    def reg(self): ...", "def _unlisted(): ...", "def __getattr__(name): ..."]
+MODELS_PY = ["class Model:\n    def save(self): ...", "class Field:\n    pass"]
 PRIV_PY = ["def helper(): ...", "def pub_helper(a): ..."]  # pub_helper: defined in a private module, public only through the re-export pkg.pub_helper
 VARIANTS = {
     "plain": {"init_extra": [], "a_extra": [], "all": ""},
@@ -72,6 +77,7 @@ PUBLIC = {
     "pkg.a.f": {"pkg.a.f", "pkg.f"}, "pkg.a.K": {"pkg.a.K", "pkg.K"}, "pkg.a.K.attr": {"pkg.a.K.attr", "pkg.K.attr", "pkg.Sub.attr"},
     "pkg.a.K.m": {"pkg.a.K.m", "pkg.K.m", "pkg.Sub.m"}, "pkg.a.Base.bm": {"pkg.a.Base.bm", "pkg.a.K.bm", "pkg.K.bm", "pkg.Sub.bm", "pkg.a.L.bm"},
     "pkg.pub_helper": {"pkg.pub_helper"}, "pkg._base.bf": {"pkg.api.bf"}, "pkg._base.LIMIT": {"pkg.api.LIMIT"}, "pkg.a.Base.shared": {"pkg.a.Base.shared", "pkg.a.K.shared", "pkg.K.shared", "pkg.Sub.shared", "pkg.a.L.shared"}, "pkg.a.L": {"pkg.a.L"}, "pkg.a.L.lm": {"pkg.a.L.lm"}, "pkg.a.L.lattr": {"pkg.a.L.lattr"},
+    "pkg.lazy._hook": {"pkg.lazy._hook"}, "pkg.lazy._Registry": {"pkg.lazy._Registry"}, "pkg.lazy.Model": {"pkg.lazy.Model"}, "pkg.lazy.Field": {"pkg.lazy.Field"},
     "pkg.a.f@definition": {"pkg.a.f"}, "pkg.a.Base.bm@definition": {"pkg.a.Base.bm"},
     "pkg.a.Base": {"pkg.a.Base"}, "pkg.a._PB.pbm": {"pkg.a.Base.pbm", "pkg.a.K.pbm", "pkg.K.pbm", "pkg.Sub.pbm", "pkg.a.L.pbm"}, "pkg.a.w": {"pkg.a.w"}, "pkg.VALUE": {"pkg.VALUE"}, "pkg.Sub": {"pkg.Sub"}, "pkg.a.Base.battr": {"pkg.a.Base.battr", "pkg.a.K.battr", "pkg.K.battr", "pkg.Sub.battr", "pkg.a.L.battr"},
 }
@@ -119,6 +125,13 @@ def catalogue():
     edit("change-value-in-module-exporting-nothing", True, N, lambda s: _sub(s, "DEFAULT = 1", "DEFAULT = 2"))
     edit("rekind-in-module-exporting-nothing", True, N, lambda s: _sub(s, "class Impl:\n    def run(self): ...", "Impl = 1"))
     edit("remove-param-in-module-exporting-nothing", True, N, lambda s: _sub(s, "def ihelper(a, b): ...", "def ihelper(a): ..."))
+    Z, MO = "pkg/lazy.py", "pkg/_models.py"
+    edit("remove-unlisted-underscore-name", True, Z, lambda s: [x for x in s if not x.startswith("def _unlisted")])
+    edit("remove-underscore-name-listed-in-all", False, Z, lambda s: [x.replace('"_hook", ', "") for x in s if not x.startswith("def _hook")], ("pkg.lazy._hook", "removed", None))
+    edit("rekind-underscore-class-listed-in-all", False, Z, lambda s: _sub(s, "class _Registry:\n    def reg(self): ...", "_Registry = 1"), ("pkg.lazy._Registry", "kind", None))
+    edit("remove-param-of-underscore-name-listed-in-all", False, Z, lambda s: _sub(s, "def _hook(a, b): ...", "def _hook(a): ..."), ("pkg.lazy._hook", "Parameter was removed", None))
+    edit("drop-type-guarded-reexport", False, Z, lambda s: [x.replace("\n    from pkg._models import Model", "").replace('"Model", ', "") for x in s] if any('"Model", ' in x for x in s) else s, ("pkg.lazy.Model", "removed", None))
+    edit("rekind-target-of-type-guarded-reexport", False, MO, lambda s: _sub(s, "class Field:\n    pass", "def Field(): ..."), ("pkg.lazy.Field", "kind", None))
     # incompatible
     edit("remove-f", False, A, lambda s: [x for x in s if not x.startswith("def f(")], ("pkg.a.f", "removed", None))
     edit("rekind-f", False, A, lambda s: _sub(s, 'def f(x, y=1):\n    """Doc f."""', "f = 1"), ("pkg.a.f", "kind", None))
@@ -176,7 +189,8 @@ def bounds(tier):
 def base_files(variant):
     v = VARIANTS[variant]
     init = [s.replace("{EXTRA_ALL}", v["all"]) for s in INIT_PY] + v["init_extra"]
-    return {"pkg/__init__.py": init, "pkg/a.py": A_PY + v["a_extra"], "pkg/_priv.py": list(PRIV_PY), "pkg/internal.py": list(INTERNAL_PY), "pkg/api.py": list(API_PY), "pkg/_base.py": list(BASE_PY)}
+    return {"pkg/__init__.py": init, "pkg/a.py": A_PY + v["a_extra"], "pkg/_priv.py": list(PRIV_PY), "pkg/internal.py": list(INTERNAL_PY), "pkg/api.py": list(API_PY), "pkg/_base.py": list(BASE_PY),
+            "pkg/lazy.py": list(LAZY_PY), "pkg/_models.py": list(MODELS_PY)}
 
 
 def apply_script(variant, script):
@@ -272,7 +286,7 @@ def judge(griffe, variant, script, old_pkg, new_pkg):
                 continue
             paths = PUBLIC[target] if e["name"] != "drop-reexport" else {"pkg.f"}
             hit = [s for s in seen if s[1] in paths and kind_sub.lower() in s[0].lower()]
-            private_def = {"pkg.pub_helper": "pkg._priv.pub_helper", "pkg._base.bf": "pkg._base.bf", "pkg._base.LIMIT": "pkg._base.LIMIT"}.get(target)
+            private_def = {"pkg.pub_helper": "pkg._priv.pub_helper", "pkg._base.bf": "pkg._base.bf", "pkg._base.LIMIT": "pkg._base.LIMIT", "pkg.lazy.Field": "pkg._models.Field"}.get(target)
             if not hit and private_def and any(s[1] == private_def and kind_sub.lower() in s[0].lower() for s in seen):
                 # reported, but against the canonical path inside the private module instead of a public path of the object
                 viols.append((f"wrong-path/{e['name']}", f"edit {e['name']} on {target}: the '{kind_sub}' breakage is reported at {private_def}, none of the object's public paths {sorted(paths)}"))
@@ -282,7 +296,7 @@ def judge(griffe, variant, script, old_pkg, new_pkg):
                 viols.append((f"silent/{e['name']}/{'alone' if others == 'alone' else 'with-' + others}", f"edit {e['name']} on {target}: no '{kind_sub}' breakage at any of {sorted(paths)}; reported: {seen[:4]}"))
     for kind, path in seen:
         last = path.rsplit(".", 1)[-1]
-        if path == "pkg._priv.pub_helper":
+        if path in ("pkg._priv.pub_helper", "pkg._models.Field"):
             continue  # judged above (wrong-path/...): one diagnosis per cause
         if path == "pkg.a._PB.shared" and any(e["name"] == "swap-base" for e in edits) and "value" in kind.lower():
             # class L(Base) -> class L(_PB): L.shared now comes from the private base (2 -> 1), a real change of the public pkg.a.L.shared,
